@@ -89,7 +89,7 @@ Proof.
   - destruct (find s key id); inversion H.
   - destruct (get key s); inversion H.
   - inversion H.
-  - destruct (get key s) as [c|]; [destruct (length c <? 100)%nat|]; inversion H.
+  - repeat match type of H with context [match ?x with _ => _ end] => destruct x end; inversion H.
   - destruct (find s key id) as [o|]; [destruct (o_jget O (g_text (o_geo o)) path raw)|]; inversion H.
 Qed.
 
@@ -109,7 +109,7 @@ Lemma not_updated_unchanged e s q s' r :
 Proof.
   intros Hi H.
   destruct q as [key id fields ex nx xx rs g|key id xx rs fields|key id erron404|key pat|key|nx key newkey| |key id ex|key id
-                 |key id path val raw|key id path|key id wf kind prec|key id fname|key id|key id fname|key id|key|pat|key ids|key id path raw];
+                 |key id path val raw|key id path|key id wf kind prec|key id fname|key id|key id fname|key id|key|pat|key cursor limit globs desc out nofields|key id path raw];
     cbn [run_req] in H.
   - (* SET *)
     inversion H as [H1]; clear H. unfold cmd_set in H1.
@@ -189,7 +189,8 @@ Proof.
   - inversion H as [H1]; clear H. destruct (find s key id); inversion H1; subst; reflexivity.
   - inversion H as [H1]; clear H. destruct (get key s); inversion H1; subst; reflexivity.
   - inversion H; subst; reflexivity.
-  - inversion H as [H1]; clear H. destruct (get key s) as [c|]; [destruct (length c <? 100)%nat|]; inversion H1; subst; reflexivity.
+  - inversion H as [H1]; clear H.
+    repeat match type of H1 with context [match ?x with _ => _ end] => destruct x end; inversion H1; subst; reflexivity.
   - inversion H as [H1]; clear H. destruct (find s key id) as [o|]; [destruct (o_jget O (g_text (o_geo o)) path raw)|]; inversion H1; subst; reflexivity.
 Qed.
 
@@ -301,7 +302,7 @@ End KsReplay.
 Definition w_JDEL : bytes := Eval compute in Spec.bs "JDEL".
 Definition w_JSET : bytes := Eval compute in Spec.bs "JSET".
 Definition jd_oracle : oracle :=
-  mkOracle toy_foracle (fun _ => true) (fun _ => 1000000000%Z) (fun _ => None) (fun s => s)
+  mkOracle toy_foracle (fun _ => true) (fun _ => 1000000000%Z) (fun _ => None) (fun _ => None) (fun s => s)
            (fun k args => GOk (mkGeo true (concat args))) (fun _ => []) (fun _ => []) (fun _ _ => [])
            (fun _ j _ v => OOk (j ++ v)) (fun j _ => OOk (removelast j)) (fun _ _ _ => None).
 
